@@ -280,3 +280,57 @@ func PairSweepCase(k, v int, sweepFaces [][]string) (Case, string) {
 	id, idx := SplitRef(ref)
 	return Case{Font: id, Index: idx, Text: text, Len: -1, Dir: pairDirs[dir], CL: cl, Flags: FBot | FEot, Src: "vii:pair-sweep:" + a.Name}, ref
 }
+
+// ---------------------------------------------------------------------------
+// systematic multi-cluster texts for C18 (texts with interior boundaries)
+
+// HasFractions reports whether the face has the three features automatic
+// fractions need.
+func HasFractions(fi *FontInfo) bool {
+	n := 0
+	for _, t := range fi.FeatTags {
+		if t == "frac" || t == "numr" || t == "dnom" {
+			n++
+		}
+	}
+	return n == 3
+}
+
+// FractionTexts is a fixed list of digit strings around U+2044 FRACTION
+// SLASH: single, chained and doubled slashes, slashes at the edges, with
+// letters and spaces around.
+func FractionTexts() [][]rune {
+	const s = 0x2044
+	raw := [][]rune{
+		{'1', s, '2'}, {'1', '2', s, '3', '4'}, {'1', s, '2', s, '3'}, {'1', '2', s, '3', '4', s, '5', '6'},
+		{'1', s, s, '2'}, {'1', s, '2', s, '3', s, '4'}, {s, '1'}, {'1', s}, {s}, {s, s}, {'1', s, '2', ' ', '3', s, '4'},
+		{'a', '1', s, '2', 'b'}, {'1', s, '2', 'a', s, '3'}, {'7', '1', s, '2', s, '3', '9', 'x'}, {'1', s, 'a', s, '2'},
+		{'3', ' ', '1', s, '2'}, {'1', '/', '2', s, '3'}, {'1', s, '2', '/', '3'}, {'0', s, '0', s, '0', s, '0', s, '0'},
+		{'1', '2', '3', s, '4', '5', '6', s, '7', '8', '9', '0'}, {'1', s, '2', 0x301}, {'1', 0x200D, s, '2'},
+		{0x661, s, 0x662, s, 0x663}, {0x967, s, 0x968}, {'1', s, '2', s}, {s, '1', s, '2'},
+	}
+	return raw
+}
+
+const MultiVariants = 2 * 2 * 4 * 3 // direction (LTR, RTL) x cluster level (0, 1) x face x letter choice
+
+// MultiClusterCase builds variant v of the six-character text
+// [letter mark letter letter mark letter] for (alphabet, mark) item k.
+func MultiClusterCase(k, v int, sweepFaces [][]string) (Case, string) {
+	pairInit()
+	it := pairItems[k]
+	dir, v := v%2, v/2
+	cl, v := v%2, v/2
+	facesel, v := v%4, v/4
+	lsel := v % 3
+	a := gen.Alphabets[it.alphabet]
+	n := len(a.Letters)
+	l := func(j int) rune { return a.Letters[((k+j*5)%7+((lsel+j)%3)*n/3)%n] }
+	text := []rune{l(0), it.mark, l(1), l(2), it.mark, l(3)}
+	ref := pairFixedFace
+	if fs := sweepFaces[it.alphabet]; facesel < len(fs) {
+		ref = fs[facesel]
+	}
+	id, idx := SplitRef(ref)
+	return Case{Font: id, Index: idx, Text: text, Len: -1, Dir: pairDirs[dir], CL: cl, Flags: FBot | FEot, Src: "viii:multi-cluster-sweep:" + a.Name}, ref
+}
